@@ -153,12 +153,19 @@ class Program:
                 modname = modname[: -len(".__init__")]
             tree = desugar(ast.parse(text, filename=rel))
             self.modules[modname] = Module(modname, rel, tree, is_pkg, text)
+        self.fn_module = {}             # id(function node) -> module (defaults are evaluated where they are written)
+        for m in self.modules.values():
+            for n in ast.walk(m.tree):
+                if isinstance(n, (ast.FunctionDef, ast.AsyncFunctionDef)):
+                    self.fn_module[id(n)] = m
         for m in self.modules.values():
             self._index(m)
         for m in self.modules.values():
             for c in m.classes.values():
                 c.bases = [self.resolve_class(m, b) or self._base_name(m, b) for b in c.node.bases]
         self._summaries = {}
+        self.record_classes = {}        # component names -> record classes constructed with them
+        self.owned = {}                 # (class, field) -> private collaborator class constructed into that field
         self.record_field_names = {}    # (class, field) -> component names of a record-valued field
         self.closures = {}          # site -> nested function definition + defining scope
 
@@ -308,6 +315,22 @@ class Program:
         found = [c for c in self.all_classes() if c.name == name]
         return found[0] if len(found) == 1 else None
 
+    def default_value(self, fn, expr):
+        """Python value of a parameter default: a literal, or a module-level constant name bound to a literal."""
+        if isinstance(expr, ast.Constant):
+            return expr.value
+        m = self.fn_module.get(id(fn))
+        seen = 0
+        while m is not None and isinstance(expr, ast.Name) and seen < 5:
+            seen += 1
+            r = self.resolve_name(m, expr.id)
+            if not r or r[0] != "const":
+                break
+            m, expr = r[1]
+            if isinstance(expr, ast.Constant):
+                return expr.value
+        return ("?", ast.unparse(expr))
+
     def find_function(self, name):
         """Qualified name of the module-level function with this simple name (unique in the package), else None."""
         found = [f"{m.name}.{name}" for m in self.modules.values() if name in m.functions]
@@ -407,6 +430,11 @@ _MIRROR = {"==": "==", "!=": "!=", "<": ">", ">": "<", "<=": ">=", ">=": "<=", "
 def cmp_term(op, a, b):
     """Canonical comparison: a constant operand goes to the right; for symmetric operators the operands
     are ordered, so `1 <= x` is `x >= 1` and `a == b` is `b == a`."""
+    if op in ("is", "is not", "==", "!=") and isinstance(b, tuple) and len(b) == 2 and b[0] == "const" and \
+            isinstance(b[1], bool) and _is_bool(a):
+        # comparing a truth value with True / False
+        same = (op in ("is", "==")) == b[1]
+        return a if same else negate_const(a)
     if op in ("is", "is not") and b == ("const", None):
         isnone = _is_none(a)
         if isnone is not None:
@@ -917,6 +945,7 @@ class Summariser:
         self.exits = []             # [(branch facts, field state)] at every `return` of this function
         self.loop_marks = []        # [(len(facts) at loop entry, [jump snapshots])]
         self.self_name = None
+        self.field_prefix = ""      # "<field>." while a method of an owned collaborator object is inlined
         self.on_yield = None        # consumer callback while a generator body is run for its `for` loop / `with`
         self.loop_iters = {}        # loop id -> iterated term (for comprehensions over generators)
         args = fn.args
@@ -940,6 +969,9 @@ class Summariser:
         # the enclosing loops are part of the identity: an object created inside a loop is a new object
         # per iteration, and rules can ask where it is created (site_loops)
         return (self.module.path, node.lineno, node.col_offset) + tuple(self.stack) + (("L",) + tuple(self.loops),)
+
+    def fname(self, attr):
+        return self.field_prefix + attr
 
     def field(self, name):
         if name not in self.fields:
@@ -1218,18 +1250,26 @@ class Summariser:
         if isinstance(target, ast.Name):
             self.env[target.id] = val
         elif isinstance(target, ast.Attribute) and self.is_self(target.value):
+            attr = self.fname(target.attr)
             names = record_names(val)
             if names and aug is None:
                 # a record-valued field is written component by component (unchanged components are not writes)
-                old = self.field(target.attr)
+                old = self.field(attr)
                 for n in names:
                     new_c = attr_of(val, n)
                     if record_names(old) != names or attr_of(old, n) != new_c:
-                        events.append(Store(f"{target.attr}.{n}", new_c, st.lineno, None))
-                self.fields[target.attr] = val
+                        events.append(Store(f"{attr}.{n}", new_c, st.lineno, None))
+                self.fields[attr] = val
                 return
-            self.fields[target.attr] = val
-            events.append(Store(target.attr, val, st.lineno, aug))
+            self.fields[attr] = val
+            events.append(Store(attr, val, st.lineno, aug))
+            if aug is None:
+                self._adopt(attr, val, events, st)
+        elif isinstance(target, ast.Attribute) and isinstance(target.value, ast.Attribute) and \
+                self.is_self(target.value.value) and self._owned_class(self.fname(target.value.attr)) is not None:
+            attr = self.fname(target.value.attr) + "." + target.attr
+            self.fields[attr] = val
+            events.append(Store(attr, val, st.lineno, aug))
         elif isinstance(target, ast.Subscript):
             cont = self.expr(target.value, events)
             key = self.expr(target.slice, events)
@@ -1253,7 +1293,10 @@ class Summariser:
             if isinstance(n, ast.Name) and isinstance(n.ctx, ast.Store):
                 names.add(n.id)
             elif isinstance(n, ast.Attribute) and isinstance(n.ctx, ast.Store) and self.is_self(n.value):
-                fields.add(n.attr)
+                fields.add(self.fname(n.attr))
+            elif isinstance(n, ast.Attribute) and isinstance(n.ctx, ast.Store) and isinstance(n.value, ast.Attribute) and \
+                    self.is_self(n.value.value) and self._owned_class(self.fname(n.value.attr)) is not None:
+                fields.add(self.fname(n.value.attr) + "." + n.attr)
         return names, fields
 
     def called_self_methods(self, body, seen=None):
@@ -1268,9 +1311,24 @@ class Summariser:
                 if m is not None and m not in seen:
                     seen.add(m)
                     sub = Summariser(self.prog, c.module, self.cls, m, owner=c)
+                    sub.field_prefix = self.field_prefix
+                    sub._owner_key = getattr(self, "_owner_key", None)
                     _, f2 = sub.assigned_names(m.body)
                     fields |= f2
                     fields |= sub.called_self_methods(m.body, seen)
+            elif isinstance(n, ast.Call) and isinstance(n.func, ast.Attribute) and isinstance(n.func.value, ast.Attribute) and \
+                    self.is_self(n.func.value.value):
+                K = self._owned_class(self.fname(n.func.value.attr))
+                if K is not None:
+                    c, m = self.prog.find_method(K, n.func.attr)
+                    if m is not None and m not in seen:
+                        seen.add(m)
+                        sub = Summariser(self.prog, c.module, K, m, owner=c)
+                        sub.field_prefix = self.fname(n.func.value.attr) + "."
+                        sub._owner_key = self.prog.mro(self.cls)[0].qual if not self.field_prefix else self._owner_key
+                        _, f2 = sub.assigned_names(m.body)
+                        fields |= f2
+                        fields |= sub.called_self_methods(m.body, seen)
         return fields
 
     def loop(self, st, events):
@@ -1487,7 +1545,8 @@ class Summariser:
         out_env = {}
         for k in set().union(*[set(envs[i]) for i in live]):
             vals = {envs[i].get(k, ("undef",)) for i in live}
-            out_env[k] = vals.pop() if len(vals) == 1 else ("tryphi", tid, k)
+            alts = tuple(dict.fromkeys(envs[i].get(k, ("undef",)) for i in live))
+            out_env[k] = vals.pop() if len(vals) == 1 else ("tryphi", tid, k, alts)
         out_f = {}
         for k in set().union(*[set(fss[i]) for i in live]):
             vals = {fss[i].get(k, ("field0", k)) for i in live}
@@ -1545,11 +1604,21 @@ class Summariser:
                         return self.inline(c, m, (), {}, events, e)
                     if m is not None:
                         return ("global", f"{c.qual}.{e.attr}")
-                    if e.attr not in self.fields:
+                    if self.fname(e.attr) not in self.fields:
                         for k in self.prog.mro(self.cls):
                             if e.attr in k.class_attrs:
                                 return self._expr(k.class_attrs[e.attr], events)
-                return self.field(e.attr)
+                return self.field(self.fname(e.attr))
+            if isinstance(e.value, ast.Attribute) and self.is_self(e.value.value):
+                # self.<owned collaborator>.<attr>: a component of this instance's state
+                K = self._owned_class(self.fname(e.value.attr))
+                if K is not None:
+                    c, m = self.prog.find_method(K, e.attr)
+                    if m is not None and any(ast.unparse(d) in ("property", "functools.cached_property",
+                                                                 "cached_property") for d in m.decorator_list):
+                        return self._inline_owned(K, self.fname(e.value.attr), c, m, (), {}, events, e)
+                    if m is None:
+                        return self.field(self.fname(e.value.attr) + "." + e.attr)
             d = self.prog.dotted_of(self.module, e)
             if d is not None:
                 r = self.prog.resolve_dotted(d)
@@ -1742,7 +1811,15 @@ class Summariser:
             if built is not None:
                 return built
         args = tuple(self._expr(a, events) for a in e.args)
-        kwargs = tuple((k.arg if k.arg is not None else "**", self._expr(k.value, events)) for k in e.keywords)
+        kwargs = []
+        for k in e.keywords:
+            v = self._expr(k.value, events)
+            if k.arg is None and v[0] == "new" and v[2] == "dict" and v[3] and \
+                    all(i[0] == "kv" and i[1][0] == "const" and isinstance(i[1][1], str) for i in v[3]):
+                kwargs.extend((i[1][1], i[2]) for i in v[3])         # f(**{"a": x, "b": y}) is f(a=x, b=y)
+            else:
+                kwargs.append((k.arg if k.arg is not None else "**", v))
+        kwargs = tuple(kwargs)
         f = e.func
         line = e.lineno
         # super().m(...) / super(C, self).m(...)
@@ -1779,27 +1856,26 @@ class Summariser:
             c, m = self.prog.find_method(self.cls, f.attr)
             if m is not None and not any(ast.unparse(d) == "property" for d in m.decorator_list):
                 return self.inline(c, m, args, dict(kwargs), events, e)
-            recv = self.field(f.attr)
-            res = ("res", self.site(e), f"self.{f.attr}", args, kwargs)
-            events.append(Call(f"self.{f.attr}", None, recv, args, kwargs, res, line))
+            fn_ = self.fname(f.attr)
+            recv = self.field(fn_)
+            res = ("res", self.site(e), f"self.{fn_}", args, kwargs)
+            events.append(Call(f"self.{fn_}", None, recv, args, kwargs, res, line))
             return res
         # self.field.method(...)
         if isinstance(f, ast.Attribute) and isinstance(f.value, ast.Attribute) and self.is_self(f.value.value) \
                 and not self._is_property(f.value.attr):
-            recv = self.field(f.value.attr)
-            if f.attr in SET_ALGEBRA and len(args) == 1 and not kwargs:
-                return ("op", SET_ALGEBRA[f.attr], recv, args[0])
-            if f.attr == "__getitem__" and len(args) == 1 and not kwargs:
-                return ("sub", recv, args[0])
-            if f.attr == "_replace" and not args and record_names(recv) and recv[0] == "tuple" and \
-                    all(k in recv[2][1:] for k, _ in kwargs):
-                new = dict(kwargs)
-                return ("tuple", tuple(new.get(n, v) for n, v in zip(recv[2][1:], recv[1])), recv[2])
-            res = ("res", self.site(e), f"self.{f.value.attr}.{f.attr}", args, kwargs)
-            events.append(Call(f"self.{f.value.attr}", f.attr, recv, args, kwargs, res, line))
-            if f.attr == "copy" and not args:
-                return ("new", self.site(e), "copy", (recv,))
-            return res
+            K = self._owned_class(self.fname(f.value.attr))
+            if K is not None:
+                c, m = self.prog.find_method(K, f.attr)
+                if m is not None:
+                    return self._inline_owned(K, self.fname(f.value.attr), c, m, args, dict(kwargs), events, e)
+            return self._field_method_call(self.fname(f.value.attr), f.attr, args, kwargs, events, e)
+        # self.field.sub.method(...) on a container held by an owned collaborator
+        if isinstance(f, ast.Attribute) and isinstance(f.value, ast.Attribute) and isinstance(f.value.value, ast.Attribute) \
+                and self.is_self(f.value.value.value) and self._owned_class(self.fname(f.value.value.attr)) is not None \
+                and self.prog.find_method(self._owned_class(self.fname(f.value.value.attr)), f.value.attr)[1] is None:
+            return self._field_method_call(self.fname(f.value.value.attr) + "." + f.value.attr, f.attr, args, kwargs,
+                                           events, e)
         d = self.prog.dotted_of(self.module, f) if isinstance(f, (ast.Attribute, ast.Name)) else None
         if isinstance(f, ast.Name):
             if f.id in self.env:
@@ -1831,6 +1907,11 @@ class Summariser:
                     return ("comp", f.id) + args[0][2:]        # list(<genexp>) is the list comprehension
                 return ("new", self.site(e), f.id, args + tuple(("kw",) + kv for kv in kwargs))
             elif r is None and f.id in PURE_BUILTINS:
+                if f.id == "bool" and len(args) == 1 and not kwargs and _is_bool(args[0]):
+                    return args[0]
+                if f.id == "zip" and not kwargs and len(args) >= 2 and all(a[0] == "tuple" and len(a) == 2 for a in args):
+                    n = min(len(a[1]) for a in args)          # zip of displays: the display of the pairs
+                    return ("tuple", tuple(("tuple", tuple(a[1][i] for a in args)) for i in range(n)))
                 if f.id == "len" and args == (("self",),) and self.cls is not None:
                     c, m = self.prog.find_method(self.cls, "__len__")
                     if m is not None:
@@ -1865,6 +1946,9 @@ class Summariser:
         # method on a local object / arbitrary expression
         if isinstance(f, ast.Attribute):
             recv = self._expr(f.value, events)
+            got = self._record_method(recv, f.attr, args, kwargs, events, e)
+            if got is not None:
+                return got
             if f.attr in SET_ALGEBRA and len(args) == 1 and not kwargs:
                 return ("op", SET_ALGEBRA[f.attr], recv, args[0])
             if f.attr == "__getitem__" and len(args) == 1 and not kwargs:
@@ -1905,6 +1989,7 @@ class Summariser:
                         ok = False
                         break
                 if ok:
+                    self.prog.record_classes.setdefault(tuple(names), set()).add(cls.qual)
                     return ("tuple", tuple(items), ("names",) + tuple(names))
         res = ("new", self.site(e), cls.qual, args + tuple(("kw",) + kv for kv in kwargs))
         events.append(Construct(cls.qual, args, kwargs, res, e.lineno))
@@ -1944,6 +2029,7 @@ class Summariser:
 
     def _bind_args(self, fn, args, kwargs, is_method, call_node):
         a = fn.args
+        _defaults_of = fn
         names = [x.arg for x in a.posonlyargs + a.args]
         decos = [ast.unparse(d) for d in fn.decorator_list]
         if is_method and "staticmethod" not in decos:
@@ -1965,10 +2051,10 @@ class Summariser:
             params["**"] = ("new", self.site(call_node), "dict", tuple(("kv", ("const", n), v) for n, v in extra))
         for n, dflt in zip(names[len(names) - len(a.defaults):], a.defaults):
             if n not in params:
-                params[n] = self._expr_const(dflt)
+                params[n] = self._expr_const(dflt, _defaults_of)
         for kw, dflt in zip(a.kwonlyargs, a.kw_defaults):
             if kw.arg not in params and dflt is not None:
-                params[kw.arg] = self._expr_const(dflt)
+                params[kw.arg] = self._expr_const(dflt, _defaults_of)
         return params
 
     def run_generator(self, call, events, consumer, split_at=None, stop=None):
@@ -2072,6 +2158,7 @@ class Summariser:
         if self.depth >= self.MAX_DEPTH:
             raise Unsupported(f"inlining bound reached at {self.module.path}:{call_node.lineno} {ast.unparse(call_node)[:60]}")
         a = node.args
+        _defaults_of = node
         names = [x.arg for x in a.posonlyargs + a.args]
         params = {}
         pos = self._expand_star(args, len(names))
@@ -2085,10 +2172,10 @@ class Summariser:
                 params[n] = v
         for n, dflt in zip(names[len(names) - len(a.defaults):], a.defaults):
             if n not in params:
-                params[n] = self._expr_const(dflt)
+                params[n] = self._expr_const(dflt, _defaults_of)
         for kw, dflt in zip(a.kwonlyargs, a.kw_defaults):
             if kw.arg not in params and dflt is not None:
-                params[kw.arg] = self._expr_const(dflt)
+                params[kw.arg] = self._expr_const(dflt, _defaults_of)
         sub = Summariser(self.prog, module, None, node, params=params, fields=self.fields, depth=self.depth + 1,
                          ids=self.ids, stack=self.stack + (f"{call_node.lineno}:{call_node.col_offset}",),
                          loops=self.loops, owner=owner, fnstack=self.fnstack)
@@ -2103,6 +2190,116 @@ class Summariser:
         rv = ret if ret is not None else ("const", None)
         events.append(Inlined(f"<closure {node.name}>", ev, call_node.lineno, None, node, dict(params), rv))
         return rv
+
+    def _record_method(self, recv, meth, args, kwargs, events, e):
+        """Method of an immutable record class called on a record display: inlined with `self` bound to the display."""
+        names = record_names(recv) if recv[0] == "tuple" else None
+        if not names or meth.startswith("_replace"):
+            return None
+        quals = self.prog.record_classes.get(tuple(names), set())
+        if len(quals) != 1:
+            return None
+        mod, cname = next(iter(quals)).rsplit(".", 1)
+        K = self.prog.modules[mod].classes[cname]
+        c, m = self.prog.find_method(K, meth)
+        if m is None or any(ast.unparse(d) in ("staticmethod", "classmethod", "property") for d in m.decorator_list) \
+                or not self._can_inline_function(c.module, m):
+            return None
+        return self.inline_function(c.module, m, f"{c.qual}.{meth}", (recv,) + tuple(args), dict(kwargs), events, e)
+
+    def _field_method_call(self, fld, meth, args, kwargs, events, e):
+        """self.<fld>.<meth>(args) on an object held in a field (fld may be a component `owner.part`)."""
+        line = e.lineno
+        recv = self.field(fld)
+        got = self._record_method(recv, meth, args, kwargs, events, e)
+        if got is not None:
+            return got
+        if meth in SET_ALGEBRA and len(args) == 1 and not kwargs:
+            return ("op", SET_ALGEBRA[meth], recv, args[0])
+        if meth == "__getitem__" and len(args) == 1 and not kwargs:
+            return ("sub", recv, args[0])
+        if meth == "_replace" and not args and record_names(recv) and recv[0] == "tuple" and \
+                all(k in recv[2][1:] for k, _ in kwargs):
+            new = dict(kwargs)
+            return ("tuple", tuple(new.get(n, v) for n, v in zip(recv[2][1:], recv[1])), recv[2])
+        res = ("res", self.site(e), f"self.{fld}.{meth}", args, kwargs)
+        events.append(Call(f"self.{fld}", meth, recv, args, kwargs, res, line))
+        if meth == "copy" and not args:
+            return ("new", self.site(e), "copy", (recv,))
+        return res
+
+    def _owned_class(self, fld):
+        """The private collaborator class whose fresh instance the constructor puts into this field, else None."""
+        if self.cls is None:
+            return None
+        root = self.prog.mro(self.cls)[0].qual if not self.field_prefix else self._owner_key
+        key = (root, fld)
+        owned = self.prog.owned
+        if key not in owned:
+            c, init = self.prog.find_method(self.cls, "__init__")
+            if self.field_prefix or init is None or init in self.fnstack or not any(
+                    isinstance(n, ast.Attribute) and n.attr == fld and isinstance(n.ctx, ast.Store) for n in ast.walk(init)):
+                return None
+            owned[key] = None
+            try:
+                self.prog.summarise(self.cls, "__init__")       # registers the owned objects it constructs
+            except Unsupported:
+                pass
+        return owned.get(key)
+
+    def _inline_owned(self, K, fld, c, m, args, kwargs, events, node):
+        """Inline a method of the collaborator object held in self.<fld>: its `self.x` is this instance's `fld.x`."""
+        saved = (self.cls, self.field_prefix, getattr(self, "_owner_key", None))
+        if not self.field_prefix:
+            self._owner_key = self.prog.mro(self.cls)[0].qual
+        self.cls, self.field_prefix = K, fld + "."
+        try:
+            return self.inline(c, m, args, kwargs, events, node)
+        finally:
+            self.cls, self.field_prefix, self._owner_key = saved
+
+    def _adopt(self, fld, val, events, node):
+        """self.<fld> = _Private(...): the collaborator's state becomes components `fld.*` of this instance."""
+        if not (val[0] == "new" and isinstance(val[2], str) and "." in val[2] and self.cls is not None):
+            return
+        mod, name = val[2].rsplit(".", 1)
+        if not name.startswith("_") or mod not in self.prog.modules or name not in self.prog.modules[mod].classes:
+            return
+        K = self.prog.modules[mod].classes[name]
+        if K.record_fields is not None or self.prog.ext_bases(K):
+            return
+        args = tuple(x for x in val[3] if not (isinstance(x, tuple) and x and x[0] == "kw"))
+        kwargs = {x[1]: x[2] for x in val[3] if isinstance(x, tuple) and x and x[0] == "kw"}
+        root = self.prog.mro(self.cls)[0].qual if not self.field_prefix else self._owner_key
+        c, init = self.prog.find_method(K, "__init__")
+        if init is not None:
+            self.prog.owned[(root, fld)] = K
+            self._inline_owned(K, fld, c, init, args, kwargs, events, node)
+            return
+        if any(ast.unparse(d).split("(")[0] in ("dataclass", "dataclasses.dataclass") for d in K.node.decorator_list):
+            names = [n.target.id for n in K.node.body if isinstance(n, ast.AnnAssign) and isinstance(n.target, ast.Name)]
+            defaults = {n.target.id: n.value for n in K.node.body
+                        if isinstance(n, ast.AnnAssign) and isinstance(n.target, ast.Name) and n.value is not None}
+            if len(args) > len(names) or not set(kwargs) <= set(names):
+                return
+            vals = dict(zip(names, args))
+            vals.update(kwargs)
+            for n in names:
+                if n not in vals:
+                    d = defaults.get(n)
+                    if isinstance(d, ast.Constant):
+                        vals[n] = ("const", d.value)
+                    elif isinstance(d, ast.Call) and ast.unparse(d.func) in ("field", "dataclasses.field") and \
+                            any(k.arg == "default_factory" and isinstance(k.value, ast.Name) and k.value.id in ("list", "dict", "set")
+                                for k in d.keywords):
+                        fac = next(k.value.id for k in d.keywords if k.arg == "default_factory")
+                        vals[n] = ("new", self.site(node) + (n,), fac, ())
+                    else:
+                        return
+            self.prog.owned[(root, fld)] = K
+            for n in names:
+                self.fields[f"{fld}.{n}"] = vals[n]
+                events.append(Store(f"{fld}.{n}", vals[n], node.lineno, None))
 
     def _call_value(self, recv, args, kwargs, events, e):
         """Call of a local that holds a library function / package class / package function, or a
@@ -2125,6 +2322,18 @@ class Summariser:
             return res
         if recv[0] == "attr" and recv[2] == "__getitem__" and len(args) == 1 and not kwargs:
             return ("sub", recv[1], args[0])
+        if recv[0] == "attr" and isinstance(recv[2], str) and recv[2].isidentifier() and not recv[2].startswith("__"):
+            # a bound method kept in a variable (`write = self._xs.append; write(x)`): the method call itself
+            obj, meth = recv[1], recv[2]
+            got = self._record_method(obj, meth, args, kwargs, events, e)
+            if got is not None:
+                return got
+            res = ("res", self.site(e), "." + meth, (obj,) + tuple(args), kwargs)
+            if meth in MUTATORS:
+                events.append(Mut(obj, meth, tuple(args), kwargs, res, e.lineno))
+            else:
+                events.append(Call("method", meth, obj, tuple(args), kwargs, res, e.lineno))
+            return res
         if recv[0] == "getter" and len(args) == 1 and not kwargs:
             if recv[1] == "itemgetter":
                 return ("sub", args[0], ("const", recv[2]))
@@ -2186,6 +2395,12 @@ class Summariser:
             return cmp_term(OPERATOR_CMP[d], args[0], args[1])
         if d == "operator.getitem" and len(args) == 2 and not kwargs:
             return ("sub", args[0], args[1])
+        if d == "operator.setitem" and len(args) == 3 and not kwargs:
+            events.append(SubStore(args[0], args[1], args[2], line, None))
+            return ("const", None)
+        if d == "operator.delitem" and len(args) == 2 and not kwargs:
+            events.append(Del(args[0], args[1], line))
+            return ("const", None)
         if d == "operator.neg" and len(args) == 1 and not kwargs:
             return ("op", "-", ("const", 0), args[0])
         if d == "operator.not_" and len(args) == 1 and not kwargs:
@@ -2304,6 +2519,7 @@ class Summariser:
         if m in self.fnstack:
             raise Unsupported(f"recursion at {self.module.path}:{node.lineno} {ast.unparse(node)[:60]}")
         a = m.args
+        _defaults_of = m
         names = [x.arg for x in a.posonlyargs + a.args]
         decos = [ast.unparse(d) for d in m.decorator_list]
         if "staticmethod" not in decos:
@@ -2326,14 +2542,16 @@ class Summariser:
         defaults = a.defaults
         for n, dflt in zip(names[len(names) - len(defaults):], defaults):
             if n not in params:
-                params[n] = self._expr_const(dflt)
+                params[n] = self._expr_const(dflt, _defaults_of)
         for kw, dflt in zip(a.kwonlyargs, a.kw_defaults):
             if kw.arg not in params and dflt is not None:
-                params[kw.arg] = self._expr_const(dflt)
+                params[kw.arg] = self._expr_const(dflt, _defaults_of)
         sub = Summariser(self.prog, c.module, self.cls, m, params=params, fields=self.fields,
                          depth=self.depth + 1, ids=self.ids,
                          stack=self.stack + (f"{node.lineno}:{node.col_offset}",), loops=self.loops,
                          owner=c, fnstack=self.fnstack)
+        sub.field_prefix = self.field_prefix
+        sub._owner_key = getattr(self, "_owner_key", None)
         sub.facts = list(self.facts)
         sub.base_facts = len(sub.facts)
         for n in ast.walk(m):
@@ -2362,6 +2580,7 @@ class Summariser:
     def inline_function(self, m, node, q, args, kwargs, events, call_node):
         """Inline a module-level package function (no self)."""
         a = node.args
+        _defaults_of = node
         names = [x.arg for x in a.posonlyargs + a.args]
         params = {}
         pos = self._expand_star(args, len(names))
@@ -2373,10 +2592,10 @@ class Summariser:
                 params[n] = v
         for n, dflt in zip(names[len(names) - len(a.defaults):], a.defaults):
             if n not in params:
-                params[n] = self._expr_const(dflt)
+                params[n] = self._expr_const(dflt, _defaults_of)
         for kw, dflt in zip(a.kwonlyargs, a.kw_defaults):
             if kw.arg not in params and dflt is not None:
-                params[kw.arg] = self._expr_const(dflt)
+                params[kw.arg] = self._expr_const(dflt, _defaults_of)
         sub = Summariser(self.prog, m, None, node, params=params, fields=self.fields, depth=self.depth + 1,
                          ids=self.ids, stack=self.stack + (f"{call_node.lineno}:{call_node.col_offset}",),
                          loops=self.loops, owner=None, fnstack=self.fnstack)
@@ -2444,11 +2663,17 @@ class Summariser:
                 return v if not ev and v[0] in ("getter", "methodcaller", "partial") else None
         return None
 
-    def _expr_const(self, e):
+    def _expr_const(self, e, owner_fn=None):
         if isinstance(e, ast.Constant):
             return ("const", e.value)
         if isinstance(e, ast.UnaryOp) and isinstance(e.op, ast.USub) and isinstance(e.operand, ast.Constant):
             return ("const", -e.operand.value)
+        # a default written as a module-level constant (`mode=_DEFAULT_MODE`) is its value
+        m = self.prog.fn_module.get(id(owner_fn)) if owner_fn is not None else None
+        if m is not None and isinstance(e, (ast.Name, ast.Attribute)):
+            v = self._const_term(m, e)
+            if v is not None and v[0] == "const":
+                return v
         return ("default", ast.unparse(e))
 
 
